@@ -106,8 +106,13 @@ class StringContainsToConcat:
 
     def global_mutations(self, node, input_):
         var = node[1]
-        k1 = f'{var}_prefix'
-        k2 = f'{var}_suffix'
+        if is_piped_symbol(var):
+            # keep the quotes around the whole symbol
+            k1 = f'|{var.data[1:-1]}_prefix|'
+            k2 = f'|{var.data[1:-1]}_suffix|'
+        else:
+            k1 = f'{var}_prefix'
+            k2 = f'{var}_suffix'
         vars = [
             Node('declare-const', k1, 'String'),
             Node('declare-const', k2, 'String'),
